@@ -9,7 +9,10 @@ from mir import op_local, op_const
 
 NONCOMM_BIN = {"Sub", "SubWithOverflow", "SubUnchecked", "Div", "Rem", "Shl", "ShlUnchecked", "Shr", "ShrUnchecked", "Lt", "Le", "Gt", "Ge"}
 NONCOMM_CALL = re.compile(r"(core::ops::arith::(Sub|Div|Rem)|core::ops::bit::(Shl|Shr)|core::cmp::PartialOrd::(lt|le|gt|ge)|"
-                          r"::(checked_sub|checked_div|checked_rem|checked_shl|checked_shr|wrapping_sub|pow|powf|powi|rem_euclid|div_euclid)$)")
+                          r"::(checked_sub|checked_div|checked_rem|checked_shl|checked_shr|wrapping_sub|pow|powf|powi|rem_euclid|div_euclid)$|"
+                          # a two-operand helper the crate defines on the number type itself (`<i32 as ExactShl>::exact_shl(x, n)`): taken as
+                          # order-sensitive, which is the safe reading
+                          r"^<(i32|i128|u8|f64) as (?!core::|std::)[\w:]+>::\w+$)")
 PRIMS = re.compile(r"\b(i32|i128|u8|f64|u32|i64|usize)\b")
 THROUGH = set(rules.TRANSPARENT) | {
     rules.TRY_BRANCH, "core::str::<impl str>::parse", "anyhow::Context::with_context", "anyhow::Context::context",
